@@ -277,6 +277,10 @@ func computeNextPriceWindow(
 // exactly with a 128-bit intermediate product and saturating at the maximum
 // uint64.
 func mulDivDiv(a, b, c, d uint64) uint64 {
+	// a zero divisor (target or change denominator) makes the exact quotient unbounded
+	if c == 0 || d == 0 {
+		return consts.MaxUint64
+	}
 	hi, lo := bits.Mul64(a, b)
 	// (qhi:qlo) = (hi:lo) / c
 	qhi, rem := bits.Div64(0, hi, c)
